@@ -708,6 +708,15 @@ class Lowerer:
                     if bname in self.tu.funcs or bname in getattr(self.tu, 'helpers', {}):      # an implicit base constructor does nothing
                         out.append(S('expr', E('call', bname, E('this', loc=self.L(src)), args, loc=self.L(src)), loc=self.L(src)))
                 continue
+            if c.get('kind') == 'CXXCtorInitializer' and c.get('delegatingInit') and c.get('inner'):
+                # Class(args...) in the initialiser list of a constructor of Class: that constructor runs on this object
+                src = c['inner'][0]
+                while src.get('kind') in TRANSPARENT and src.get('inner'):
+                    src = src['inner'][-1]
+                if src.get('kind') == 'CXXConstructExpr':
+                    args = [self.expr(a) for a in src.get('inner', []) if a.get('kind') != 'CXXDefaultArgExpr']
+                    out.append(S('expr', E('delegate', _clean_type((c['delegatingInit'] or {}).get('qualType', '')), args, loc=self.L(src), raw=src), loc=self.L(src)))
+                continue
             if c.get('kind') == 'CXXCtorInitializer':
                 tgt = c.get('anyInit')
                 inner = c.get('inner', [])
@@ -979,6 +988,9 @@ class Lowerer:
                     d = self.tu.by_id.get(rd.get('id'), rd)
                     return E('var', self._local(d if d.get('id') else rd), loc=loc, ty=ty)
                 return E('var', q, loc=loc, ty=ty, raw=n)
+            if rk in ('FieldDecl', 'IndirectFieldDecl'):
+                # a data member named as a value (&Class::member): the pointer to member is the member's name
+                return E('memptr', rd.get('name', '?'), loc=loc, ty=ty, raw=n)
             q = self.tu.qual.get(rd.get('id')) or rd.get('name', '?')
             if rk == 'CXXMethodDecl' and self.tu.by_id.get(rd.get('id'), {}).get('storageClass') != 'static':
                 # a non-static member function named as a value (&Class::method; callees of calls do not come this way): the
@@ -1006,8 +1018,8 @@ class Lowerer:
             if op == '&':
                 if sub.k == 'deref':
                     return sub.a[0]
-                if sub.k == 'memfn':
-                    return sub                   # &Class::method is the pointer to member itself
+                if sub.k in ('memfn', 'memptr'):
+                    return sub                   # &Class::method / &Class::member is the pointer to member itself
                 return E('addr', sub, loc=loc, ty=ty)
             if op == '*':
                 if sub.k == 'addr':
@@ -1026,6 +1038,8 @@ class Lowerer:
                 arr = self._countof(inner[0], inner[1])
                 if arr is not None:
                     return arr
+            if op in ('.*', '->*'):
+                return E('memfield', self.expr(inner[0]), self.expr(inner[1]), loc=loc, ty=ty, raw=n)     # object.*pointer-to-data-member
             return E('bin', op, self.expr(inner[0]), self.expr(inner[1]), loc=loc, ty=ty, raw=n)
         if k == 'CompoundAssignOperator':
             return E('assignexpr', self.expr(inner[0]),
